@@ -52,6 +52,11 @@ def gen(rng, budget, tier):
     yield "c17.wrap unknown 0 CANCEL"
     yield "c17.wrap changed 0 CANCEL"
     yield "c17.wrap known 0 CANCEL"
+    # a refused host is contacted again through the same callback (what dtail's reconnect does): refused again unless approved now
+    yield "c17.wrap unknown 0 n|n"
+    yield "c17.wrap changed 0 no|x,,no"
+    yield "c17.wrap unknown 0 n|y"
+    yield "c17.wrap unknown 0 no|n|n"
     for w in wraps[: (24 if tier == "quick" else len(wraps))]:
         yield w
     for i in range(budget):
@@ -64,3 +69,7 @@ def gen(rng, budget, tier):
         hs = [rng.choice(hosts_pool) + (rng.randrange(3),) for _ in range(rng.choice([0, 1, 1, 2, 4]))]
         spec = ";".join(f"{h[0]}~{h[1]}~{h[2]}" for h in hs) if hs else "-"
         yield f"c17.trust {hexs(old.encode())} {spec}"
+
+
+# several attempts through one callback: only the verdicts are compared (what is recorded in between is the single-attempt cases' business)
+CANON = {"c17.wrap": lambda s: s.split(";")[0] if "|" in s.split(";")[0] else s}
